@@ -9,5 +9,6 @@ CONSTANTS
   MaxBuilds = 99
   Variant = "chained"
   Fuel = 50
+  Styles <- AllStyles
   MaxHist = 12
 CONSTRAINT Emit
